@@ -1,12 +1,11 @@
 CONSTANTS
-  TermsOf <- AbsTerms
-  ShortOf <- AbsShort
+  LabelTerms <- AbsTerms
   Variant = "ok"
   Labels <- L3
   MaxNodes = 1
   MaxDepth = 4
   Alphabet <- AlphaCore
   MaxToks = 3
-  Gen <- Atoms
+  Big = FALSE
 SPECIFICATION SpecTexts
 INVARIANT NeverUnbalanced
